@@ -274,6 +274,23 @@ pub struct BytecodeVM {
 }
 
 impl BytecodeVM {
+    /// Generator functions, async functions and arrow functions cannot be used with `new`.
+    fn is_not_a_constructor(callee: &Gc<JsObject>) -> bool {
+        match &callee.borrow().exotic {
+            ExoticObject::Function(
+                JsFunction::BytecodeGenerator(_)
+                | JsFunction::BytecodeAsync(_)
+                | JsFunction::BytecodeAsyncGenerator(_),
+            ) => true,
+            ExoticObject::Function(JsFunction::Bytecode(bc)) => bc
+                .chunk
+                .function_info
+                .as_ref()
+                .is_some_and(|info| info.is_arrow),
+            _ => false,
+        }
+    }
+
     /// Create a new VM with a guard for keeping objects alive
     pub fn with_guard(
         chunk: Rc<BytecodeChunk>,
@@ -2929,6 +2946,11 @@ impl BytecodeVM {
                     return Err(JsError::type_error("eval is not a constructor"));
                 }
 
+                // Generators, async functions and arrow functions have no [[Construct]]
+                if Self::is_not_a_constructor(ctor) {
+                    return Err(JsError::type_error("Value is not a constructor"));
+                }
+
                 // Create guard for OpResult values
                 let guard = interp.heap.create_guard();
                 guard.guard(ctor.cheap_clone());
@@ -3005,6 +3027,11 @@ impl BytecodeVM {
                     && native.name.as_str() == "eval"
                 {
                     return Err(JsError::type_error("eval is not a constructor"));
+                }
+
+                // Generators, async functions and arrow functions have no [[Construct]]
+                if Self::is_not_a_constructor(ctor) {
+                    return Err(JsError::type_error("Value is not a constructor"));
                 }
 
                 // Create guard for OpResult values
